@@ -157,6 +157,9 @@ func unmarshalList(dec *msgpack.Decoder, ety cty.Type, path cty.Path) (cty.Value
 		vals = append(vals, val)
 	}
 
+	if !cty.CanListVal(vals) {
+		return cty.DynamicVal, path.NewErrorf("list elements must all have the same type")
+	}
 	return cty.ListVal(vals), nil
 }
 
@@ -188,6 +191,9 @@ func unmarshalSet(dec *msgpack.Decoder, ety cty.Type, path cty.Path) (cty.Value,
 		vals = append(vals, val)
 	}
 
+	if !cty.CanSetVal(vals) {
+		return cty.DynamicVal, path.NewErrorf("set elements must all have the same type")
+	}
 	return cty.SetVal(vals), nil
 }
 
@@ -224,6 +230,9 @@ func unmarshalMap(dec *msgpack.Decoder, ety cty.Type, path cty.Path) (cty.Value,
 		vals[key] = val
 	}
 
+	if !cty.CanMapVal(vals) {
+		return cty.DynamicVal, path.NewErrorf("map elements must all have the same type")
+	}
 	return cty.MapVal(vals), nil
 }
 
